@@ -43,7 +43,8 @@ def render(case):
     for c in case["classes"]:
         lines.append("model %s" % c["name"])
         for d in c["decl_order"]:
-            lines.append("  %s %s;" % (d[1], d[0]))
+            dim = c.get("dims", {}).get(d[0])
+            lines.append("  %s %s%s;" % (d[1], d[0], "[%d]" % dim if dim else ""))
         for z in c.get("reals", []):
             lines.append("  Real %s;" % z)
         lines.append("equation")
@@ -91,12 +92,27 @@ def class_table(case):
     return {c["name"]: c for c in case["classes"]}
 
 
+def base(x):
+    """'a[2]' -> 'a' (array elements are written into the reference strings)"""
+    return x.split("[")[0]
+
+
+def elems(c, n):
+    d = c.get("dims", {}).get(n)
+    return [n] if not d else ["%s[%d]" % (n, k) for k in range(1, d + 1)]
+
+
 def conn_type(tab, c, r):
     """connector class of reference r = (comp|None, conn) used inside class c"""
     if r[0] is None:
-        return dict(c["conns"])[r[1]]
-    sub = tab[dict(c["subs"])[r[0]]]
-    return dict(sub["conns"])[r[1]]
+        return dict(c["conns"])[base(r[1])]
+    sub = tab[dict(c["subs"])[base(r[0])]]
+    return dict(sub["conns"])[base(r[1])]
+
+
+def tgroup(connectors, t):
+    """connector classes with the same members (name, kind) are connectable with one another"""
+    return tuple(sorted((v, "pot" if k in POT_KINDS else k) for v, k in connectors[t]))
 
 
 def reference(case):
@@ -111,12 +127,14 @@ def reference(case):
     def walk(prefix, cname, depth):
         c = tab[cname]
         stats["levels"] = max(stats["levels"], depth)
-        for n, t in c["conns"]:
-            for v, k in case["connectors"][t]:
-                if k == "flow":
-                    allflows.append((prefix + n, prefix + n + "." + v))
-        for n, t in c["subs"]:
-            walk(prefix + n + ".", t, depth + 1)
+        for n0, t in c["conns"]:
+            for n in elems(c, n0):
+                for v, k in case["connectors"][t]:
+                    if k == "flow":
+                        allflows.append((prefix + n, prefix + n + "." + v))
+        for n0, t in c["subs"]:
+            for n in elems(c, n0):
+                walk(prefix + n + ".", t, depth + 1)
         uf = UF()
         size = {}
         for it in c["body"]:
@@ -165,6 +183,11 @@ def reference(case):
             rows.append({fv: Fraction(1)})
             zeros += 1
     stats["zero_defaults"] = zeros
+    stats["array_clauses"] = sum(1 for c_ in case["classes"] for it in c_["body"]
+                                 if it[0] == "connect" and "[" in ref_str(it[1]) + ref_str(it[2]))
+    stats["mixed_class_clauses"] = sum(
+        1 for c_ in case["classes"] for it in c_["body"] if it[0] == "connect"
+        and conn_type(tab, c_, tuple(it[1])) != conn_type(tab, c_, tuple(it[2])))
     conns_all = {c_ for c_, _ in allflows}
     stats["prefix_unconnected"] = sum(1 for u in conns_all if u not in mentioned
                                       and any(u.startswith(m_) for m_ in mentioned))
@@ -185,9 +208,16 @@ def lin(t):
     if tag == "sym":
         return {t[1]: Fraction(1)}, Fraction(0)
     if tag == "ref":
-        if t[3] or any(i is not None for ia in t[2] for i in ia):
-            raise NonLinear("indexed or unresolved reference %s" % t[1])
-        return {t[1]: Fraction(1)}, Fraction(0)
+        if t[3]:
+            raise NonLinear("unresolved reference %s" % t[1])
+        idx = [i for ia in t[2] for i in ia if i is not None]
+        if not idx:
+            return {t[1]: Fraction(1)}, Fraction(0)
+        # generated arrays live at the top level only: one literal index, on the first name segment
+        if len(idx) != 1 or idx[0][0] != "num" or int(idx[0][1]) != idx[0][1]:
+            raise NonLinear("unsupported indices on %s" % t[1])
+        segs = t[1].split(".")
+        return {".".join(["%s[%d]" % (segs[0], idx[0][1])] + segs[1:]): Fraction(1)}, Fraction(0)
     if tag == "num":
         return {}, Fraction(t[1])
     if tag == "op":
@@ -215,7 +245,10 @@ def add(a, b, s):
     return d, a[1] + s * b[1]
 
 
-def impl_rows(res):
+def impl_rows(res, case=None):
+    dims = {}
+    if case is not None:
+        dims = class_table(case)[case["top"]].get("dims", {})
     rows = []
     for e in res["eqs"]:
         if e[0] != "eq":
@@ -223,7 +256,16 @@ def impl_rows(res):
         d, k = add(lin(e[1]), lin(e[2]), -1)
         if k != 0:
             raise NonLinear("inhomogeneous equation (constant %s)" % k)
-        rows.append(d)
+        whole = [v for v in d if v.split(".")[0] in dims]
+        if whole:
+            # an equation on a whole array symbol (the zero default `a.n.i = 0`) means every element
+            if len(d) != 1:
+                raise NonLinear("whole-array variable in a compound equation: %s" % show(d))
+            segs = whole[0].split(".")
+            for kk in range(1, dims[segs[0]] + 1):
+                rows.append({".".join(["%s[%d]" % (segs[0], kk)] + segs[1:]): d[whole[0]]})
+        else:
+            rows.append(d)
     return rows
 
 
@@ -281,7 +323,7 @@ def judge(case, res):
     if "eqs" not in res:
         return "flatten failed: %s" % json.dumps(res)[:300]
     try:
-        got = impl_rows(res)
+        got = impl_rows(res, case)
     except NonLinear as e:
         return "flat equation not of the expected linear homogeneous form: %s" % e
     want, passthrough, _ = reference(case)
@@ -300,6 +342,36 @@ def judge(case, res):
             return ("flat equation  %s  is not implied by the connection semantics "
                     "(solution space too small)" % show(r))
     return "row spaces differ"
+
+
+ARRAY_TAG = "array-element-unconnected-no-zero"
+
+
+def judge_tag(case, res):
+    """Tag of a failing case.  ARRAY_TAG only when the sole discrepancy is the documented one: elements of an
+    ARRAY of connectors that appear in no connection get no zero equation although another element of the same
+    array is connected (tree.py:1114-1117 TODO)."""
+    try:
+        got = impl_rows(res, case)
+    except (NonLinear, KeyError):
+        return "connection-equations"
+    want, passthrough, _ = reference(case)
+    allv = {v for r in want for v in r}
+    mentioned_bases = set()
+    for r in got:
+        if len(clean(r)) > 1 or any("[" not in v for v in r):
+            for v in r:
+                if "[" in v:
+                    mentioned_bases.add(base(v.split(".")[0]) + "." + ".".join(v.split(".")[1:]))
+    extra = []
+    for r in want:
+        if len(r) == 1:
+            v = next(iter(r))
+            if "[" in v and base(v.split(".")[0]) + "." + ".".join(v.split(".")[1:]) in mentioned_bases:
+                extra.append(r)
+    if extra and rref(got + extra) == rref(want + passthrough) and rref(got) != rref(want + passthrough):
+        return ARRAY_TAG
+    return "connection-equations"
 
 
 # ---------------------------------------------------------------------------
@@ -385,6 +457,16 @@ def gen_connectors(rng):
             vs.append(["k0", rng.choice(["par", "const"])])
         rng.shuffle(vs)
         out[cname] = vs
+        if len(vs) >= 2 and rng.random() < 0.4:
+            # a second connector class with the same members in another declaration order
+            # (supply / return port): members are matched by NAME, never by position
+            tw = list(vs)
+            for _ in range(10):
+                rng.shuffle(tw)
+                if tw != vs:
+                    break
+            if tw != vs:
+                out[cname + "R"] = [list(x) for x in tw]
     return out
 
 
@@ -409,12 +491,12 @@ def draw_names(rng, pool, k):
     return out
 
 
-def gen_leaf(rng, name, connectors, nconn):
+def gen_leaf(rng, name, connectors, nconn, plain=False):
     cn = draw_names(rng, LEAF_POOL, nconn)
     rng.shuffle(cn)
     conns = [[cn[i], rng.choice(list(connectors))] for i in range(nconn)]
     c = {"name": name, "conns": conns, "subs": [], "reals": [], "body": []}
-    if rng.random() < 0.3:
+    if not plain and rng.random() < 0.3:
         # ordinary (pass-through) equations of the component
         x = rng.random()
         flows = [(cn_, v) for cn_, t in conns for v, k in connectors[t] if k == "flow"]
@@ -432,26 +514,31 @@ def gen_leaf(rng, name, connectors, nconn):
     return c
 
 
-def endpoints(tab, c, t):
-    eps = [(None, n) for n, ty in c["conns"] if ty == t]
+def endpoints(tab, c, grp, connectors):
+    eps = [(None, e) for n, ty in c["conns"] if tgroup(connectors, ty) == grp for e in elems(c, n)]
     for sn, st in c["subs"]:
-        eps += [(sn, n) for n, ty in tab[st]["conns"] if ty == t]
+        for se in elems(c, sn):
+            eps += [(se, n) for n, ty in tab[st]["conns"] if tgroup(connectors, ty) == grp]
     return eps
 
 
 def add_connects(rng, case_connectors, tab, c, shape, p_level=1.0):
     body = []
+    groups = []
     for t in case_connectors:
-        eps = endpoints(tab, c, t)
+        if tgroup(case_connectors, t) not in groups:
+            groups.append(tgroup(case_connectors, t))
+    for grp in groups:
+        eps = endpoints(tab, c, grp, case_connectors)
         if len(eps) < 2 or rng.random() > p_level:
             continue
         sh = shape if rng.random() < 0.75 else rng.choice(SHAPES)
         body += [["connect", list(a), list(b)] for a, b in gen_edges(rng, eps, sh)]
-    if len(case_connectors) > 1 and rng.random() < 0.5:
+    if len(groups) > 1 and rng.random() < 0.5:
         # interleave the clauses of the two connector classes, keeping each class's order
         by = {}
         for it in body:
-            by.setdefault(conn_type(tab, c, tuple(it[1])), []).append(it)
+            by.setdefault(tgroup(case_connectors, conn_type(tab, c, tuple(it[1]))), []).append(it)
         lists = list(by.values())
         body = []
         while any(lists):
@@ -461,6 +548,37 @@ def add_connects(rng, case_connectors, tab, c, shape, p_level=1.0):
     for it in c["body"]:
         body.insert(rng.randint(0, len(body)), it)
     c["body"] = body
+
+
+def complete_arrays(rng, connectors, tab, c):
+    """pymoca removes zero defaults by NAME, so an array of connectors is generated either with every element
+    in some connection or with none (the partially connected case is the recorded known finding ARRAY_TAG)."""
+    def ends():
+        return [tuple(it[k]) for it in c["body"] if it[0] == "connect" for k in (1, 2)]
+    for _ in range(6):
+        used = set(ends())
+        todo = []
+        for grp in {tgroup(connectors, t) for t in connectors}:
+            eps = endpoints(tab, c, grp, connectors)
+            by = {}
+            for e in eps:
+                if "[" in ref_str(e):
+                    by.setdefault((base(e[0]) if e[0] else None, base(e[1])), []).append(e)
+            for fam in by.values():
+                if any(e in used for e in fam):
+                    todo += [(e, grp) for e in fam if e not in used]
+        if not todo:
+            return
+        for e, grp in todo:
+            partners = [x for x in endpoints(tab, c, grp, connectors) if x in used and x != e]
+            if not partners:
+                partners = [x for x in endpoints(tab, c, grp, connectors) if x != e]
+            other = rng.choice(partners)
+            pair = [list(e), list(other)]
+            if rng.random() < 0.5:
+                pair.reverse()
+            c["body"].insert(rng.randint(0, len(c["body"])), ["connect"] + pair)
+            used.add(e)
 
 
 def finish_class(rng, c):
@@ -474,8 +592,10 @@ def gen_case(rng, shape=None):
     connectors = gen_connectors(rng)
     classes, tab = [], {}
 
+    arrays = rng.random() < 0.22      # arrays of components / connectors at the top level
+
     def new_leaf(nm):
-        c = gen_leaf(rng, nm, connectors, rng.randint(1, 3))
+        c = gen_leaf(rng, nm, connectors, rng.randint(1, 3), plain=arrays)
         finish_class(rng, c)
         classes.append(c)
         tab[nm] = c
@@ -519,7 +639,15 @@ def gen_case(rng, shape=None):
     for j in range(ntop):
         top["conns"].append([tnames[j], rng.choice(list(connectors))])
     tab["M"] = top
+    if arrays:
+        top["dims"] = {}
+        cand = [n for n, t in top["subs"] if not tab[t]["subs"]] + [n for n, _ in top["conns"]]
+        rng.shuffle(cand)
+        for n in cand[:rng.randint(1, 2)]:
+            top["dims"][n] = rng.randint(2, 3)
     add_connects(rng, connectors, tab, top, shape)
+    if arrays:
+        complete_arrays(rng, connectors, tab, top)
     finish_class(rng, top)
     classes.append(top)
     case = {"connectors": connectors, "classes": classes, "top": "M", "shape": shape}
@@ -738,7 +866,7 @@ def encode_case(case, res):
     expressed in the model's vocabulary (then it is a mismatch by itself)."""
     ids = ident_ids(case)
     tab = class_table(case)
-    rows = impl_rows(res)
+    rows = impl_rows(res, case)
     _, passthrough, _ = reference(case)
     rows = [clean(r) for r in rows]
     for p in passthrough:                       # ordinary equations are not the model's business
@@ -773,7 +901,7 @@ class StrIds(dict):
 
 def encode_case_s(case, res):
     tab = class_table(case)
-    rows = [clean(r) for r in impl_rows(res)]
+    rows = [clean(r) for r in impl_rows(res, case)]
     _, passthrough, _ = reference(case)
     for p_ in passthrough:
         p_ = clean(p_)
@@ -802,6 +930,16 @@ def run_children(ctx, cases, workers=3):
     with ThreadPoolExecutor(max_workers=workers) as ex:
         parts = list(ex.map(lambda ch: core.run_child(ctx, "c09", ch, timeout=1500), chunks))
     return [r for p in parts for r in p]
+
+
+def has_arrays(case):
+    return any(c.get("dims") for c in case["classes"])
+
+
+def known_still_fails(ctx, e):
+    case = e["replay"]["case"]
+    res = core.run_child(ctx, "c09", [{"text": case["text"], "top": case["top"]}])[0]
+    return bool(judge(case, res)) and judge_tag(case, res) == e["tag"]
 
 
 def slim(case):
@@ -850,7 +988,7 @@ def run(ctx):
         shapes[c["shape"]] = shapes.get(c["shape"], 0) + 1
         why = judge(c, r)
         if why:
-            core.report(ctx, "connection-equations", why, {"case": slim(c), "observed": r})
+            core.report(ctx, judge_tag(c, r), why, {"case": slim(c), "observed": r})
         _, _, st = reference(c)
         for k, v in st.items():
             if k in ("levels", "max_set"):
@@ -858,7 +996,7 @@ def run(ctx):
             else:
                 agg[k] = agg.get(k, 0) + v
         for flag in ("merges", "redundant", "mixed_sets", "outside_only_sets", "zero_defaults",
-                     "prefix_unconnected"):
+                     "prefix_unconnected", "array_clauses", "mixed_class_clauses"):
             if st[flag]:
                 agg["cases_with_" + flag] = agg.get("cases_with_" + flag, 0) + 1
         if st["levels"] >= 2 and any(x["body"] and x["name"] != "M" and x["subs"] for x in c["classes"]):
@@ -868,9 +1006,13 @@ def run(ctx):
 
     # (b) correspondence: Coq model vs implementation rows
     enc, idx, unenc = [], [], []
+    n_array_cases = 0
     for i, (c, r) in enumerate(zip(cases, results)):
         if "eqs" not in r:
             unenc.append((i, "impl failure"))
+            continue
+        if has_arrays(c):
+            n_array_cases += 1          # scalar-connector model: array cases are judged by the oracle only
             continue
         try:
             e, why = encode_case(c, r)
@@ -917,7 +1059,8 @@ def run(ctx):
         core.violation(ctx, "correspondence-broken",
                        {"correspondence": "Model/C09_connect.v check_case vs pymoca.tree.flatten",
                         "case": slim(cases[i]), "observed": results[i]}, no_input=True)
-    core.replay_known(ctx, lambda e: None)
+    core.replay_known(ctx, lambda e: known_still_fails(ctx, e))
+    ctx.notes["array_cases_oracle_only"] = n_array_cases
 
     ctx.cov["evaluations"] = len(cases)
     ctx.cov["distinct_nontrivial"] = len(nontrivial)
@@ -936,8 +1079,10 @@ def run(ctx):
         "value-level model: flow_connections maps a key to its set of keys; the sharing of OrderedDict objects "
         "(in-place update of the left set, repointing of all members) is covered by the proved sharing invariant at "
         "value level and exercised by the correspondence check, not proved at heap level",
-        "scalar connectors only (index tuple of a key always empty); arrays of connectors, stream/expandable "
-        "connectors and connects of elementary Reals are outside the model and the generator",
+        "the Coq model has scalar connectors only (index tuple of a key always empty): generated top-level arrays "
+        "of components/connectors are judged by the row-space oracle only and skip the Coq correspondence; arrays are "
+        "generated with every element of an array connected or none (the partial case is the recorded known finding); "
+        "stream/expandable connectors and connects of elementary Reals are outside the model and the generator",
         "equation order and operand order are not compared (multisets of canonical linear forms); the parse of flat "
         "equations into linear rows and the name splitting at '.' are trusted harness code",
         "Coq names are lists of identifiers, so confusing a name with a string prefix of it (port1 / port10) cannot "
